@@ -30,8 +30,8 @@ Theorem C03_potential_sound :
 Proof. exact potential_sound_abs. Qed.
 Print Assumptions C03_potential_sound.
 
-(* tight chains: every pixel accepted by the hint verifier carries the cost and the label of a
-   real mask path from a masked seed *)
+(* tight chains: every (pixel, label) accepted by the hint verifier is witnessed by a real mask
+   path from a masked seed with that label whose cost is the pixel's reported distance *)
 Theorem C03_tight_chain_sound :
   forall (K : Type) (leb eqb : K -> K -> bool) (okb : K -> bool) (plus : K -> K -> K) (zero : K),
     (forall a b, eqb a b = true -> a = b) ->
@@ -39,9 +39,9 @@ Theorem C03_tight_chain_sound :
            (lab : V -> Z) (w : V -> V -> K) (lo : V -> Z) (d : V -> option K),
       (forall a b, eqV a b = true -> a = b) ->
       forallb (check_vertex K leb eqb okb plus zero V nbrs mask lab w lo d) verts = true ->
-      forall hint v, In v (chain_set K eqb plus V eqV verts nbrs mask lab w lo d hint) ->
-        exists s p, reaches V verts nbrs mask lab s p v /\ d v = Some (pcost K plus V w zero s p) /\ lab s = lo v.
-Proof. exact tight_chain_sound. Qed.
+      forall hint v l, In (v, l) (chain_set K eqb plus V eqV verts nbrs mask lab w d hint) ->
+        exists s p, reaches V verts nbrs mask lab s p v /\ d v = Some (pcost K plus V w zero s p) /\ lab s = l.
+Proof. exact tight_chain_sound_pair. Qed.
 Print Assumptions C03_tight_chain_sound.
 
 (* the checker is sound for every cost algebra satisfying the laws, every finite graph, every
